@@ -105,6 +105,40 @@ Section C13_C02.
   Qed.
 End C13_C02.
 
+(* ---- the transform-result cache key determines the result ------------------------------------------ *)
+From OV Require Proofs.PipelineKey.
+Section C13_Key.
+  Variable root : tree.
+  Variable query : bytes -> path -> option (list path).
+  Variable ext : bytes -> option bytes.
+  Variable fsigs : bytes -> option fsig.
+  Variable fcall : bytes -> path -> list value -> cfres.    (* custom functions: they receive the node *)
+  Variable pcall : bytes -> path -> cfres.
+  Variable V : path -> Prop.
+  Variable top : vdecl.
+  Hypothesis query_V : forall x p ps, V p -> query x p = Some ps -> Forall V ps.
+  Hypothesis top_wf : wf_b true top = true.
+  Variable K : Type.
+  Variable nid : path -> K.
+  Hypothesis nid_inj : forall p q, V p -> V q -> nid p = nid q -> p = q.
+
+  (* for ALL declaration kinds of a validated tree (const, external, field, object, array,
+     custom_func - incl. those taking the node implicitly such as copy and
+     javascript_with_context -, custom_parse) and all nodes: equal keys (node ID, declaration hash,
+     xpathQueryNeeded) => equal results *)
+  Theorem cache_key_determines_result : forall d1 d2 p1 p2,
+    In d1 (subdecls top) -> In d2 (subdecls top) -> V p1 -> V p2 ->
+    PipelineKey.cache_key K nid d1 p1 = PipelineKey.cache_key K nid d2 p2 ->
+    eval_nocache root query ext fsigs fcall pcall d1 p1 = eval_nocache root query ext fsigs fcall pcall d2 p2.
+  Proof. exact (PipelineKey.cache_key_determines_result root query ext fsigs fcall pcall V top query_V top_wf K nid nid_inj). Qed.
+End C13_Key.
+
+(* the node component of the key is necessary: a custom function's answer may depend on the node *)
+Theorem key_without_node_refuted :
+  exists (fcall : bytes -> path -> list value -> cfres) (name : bytes) (p1 p2 : path) (args : list value),
+    p1 <> p2 /\ fcall name p1 args <> fcall name p2 args.
+Proof. exact PipelineKey.key_without_node_refuted. Qed.
+
 (* the extracted source fact on its own *)
 Theorem decl_hash_key_full : decl_hash_key_is_full_encoding = true.
 Proof. reflexivity. Qed.
